@@ -38,7 +38,7 @@ def scenario(exe, shim, root, seed, stats):
     backup = root + '.bak'
     shutil.copytree(a.root, backup, symlinks=True)
     cfg = 'ndisks=%d nparity=%d hashsize=%d splits=%d seed=%d' % (a.ndisks, a.nparity, hs, splits, seed)
-    triggers = ['all-missing', 'all-missing-plus-copy', 'all-rewritten', 'zero-size', 'short-parity', 'empty-parity', 'blocksize', 'hashsize', 'missing-disk', 'lock']
+    triggers = ['all-missing', 'all-missing-plus-copy', 'all-rewritten', 'zero-size', 'zero-size-partial', 'short-parity', 'empty-parity', 'blocksize', 'hashsize', 'missing-disk', 'lock']
     rng2 = rng.fork()
     for trig in triggers:
         shutil.rmtree(a.root); shutil.copytree(backup, a.root, symlinks=True)
@@ -80,6 +80,21 @@ def scenario(exe, shim, root, seed, stats):
             # only meaningful for a file known to the content
             open(a.path(dd, rel), 'wb').close()
             override = ['--force-zero', '--force-empty']; desc += ' %s/%s' % (dd, rel)
+        elif trig == 'zero-size-partial':
+            # the file was recorded as non-empty by a sync that did NOT complete (partial range, or killed after the content
+            # save and before the parity update): some of its blocks are still pending when it turns up with zero size
+            dd = rng2.choice(a.disks); rel = 'partial/p%d.bin' % rng2.below(100)
+            a.write(dd, rel, rng2.bytes(a.block * (4 + rng2.below(5)) + rng2.below(a.block)), s.tick())
+            if rng2.chance(1, 2): a.cmd('sync', '-B', str(1 + rng2.below(3)), '--force-empty', '--force-zero')
+            else: a.cmd('sync', '--test-kill-after-sync', '--force-empty', '--force-zero')
+            if not os.path.exists(a.contents[0]): continue
+            dec1 = fx.decode(a)
+            recf = [f for f in dec1.files if dec1.maps[f['mapping']][0].decode() == dd and f['sub'] == os.fsencode(rel) and f['size'] > 0] if dec1.ok else []
+            if not recf: continue
+            pend = sum(1 for b in recf[0]['blocks'] if b[1] != 'b')
+            stats['zero_partial_pending'] = stats.get('zero_partial_pending', 0) + (1 if pend else 0)
+            open(a.path(dd, rel), 'wb').close()
+            override = ['--force-zero', '--force-empty']; desc += ' %s/%s (%d of %d blocks still pending)' % (dd, rel, pend, len(recf[0]['blocks']))
         elif trig in ('short-parity', 'empty-parity'):
             lev = rng2.below(a.nparity)
             pfs = [p for p in a.parity_files(lev) if os.path.exists(p) and os.path.getsize(p) > a.block]
